@@ -12,6 +12,8 @@ def tasks(run):
         if i % 5 == 0:
             out.append(('dimred', (name, seed, 'trace', 1e-2)))
     out += [('dimred', ('T_scaled', i, h)) for i in range(2) for h in ('trace', 'logdet1')]
+    # several reweighted solves with a LARGE tolerance: the objective stays within ONE tolerance of the optimum, whatever the number of iterations
+    out += [('dimred', (name, seed, 'logdet4', 1e-2)) for (name, seed) in models.programs(run.seed + 5, 4)]
     # non-default options far apart: tolerance 1e-6 on the objective, regularisation 0.2 of the logdet weights (each must reach its own use)
     out += [('dimred', ('T_gd_ssc', run.seed + i, h, 1e-6, 0.2)) for i in range(2) for h in ('trace', 'logdet2')]
     return out
